@@ -274,7 +274,7 @@ package pql
 //@   decreases len(conds) - rangeindex
 
 //@ func pql.splitQueries
-//@   use split
+//@   use split fail
 //@   hide expr exprwf joincond view
 //@   requires tabWF(source, expr)
 //@   requires allBelow(dst, len(dst), alloc()) && distinctL(dst, len(dst))
@@ -282,8 +282,10 @@ package pql
 //@   ensures @refs: result1 == nil ==> len(result0) > len(dst) && allBelow(result0, len(result0), alloc()) && distinctL(result0, len(result0))
 //@   ensures @prefix: result1 == nil ==> forall(j, 0, len(dst), result0[j] == dst[j]) && forall(j, len(dst), len(result0), result0[j] >= old(alloc()))
 //@   ensures @wf: result1 == nil ==> forall(j, len(dst), len(result0), subWF(source, subAt(fieldheap("subquery", "name"), fieldheap("subquery", "sourceSQL"), fieldheap("subquery", "op"), fieldheap("subquery", "sort"), fieldheap("subquery", "take"), result0[j])))
+//@   ensures @fails: (result1 != nil) == joinsFailL(mapdom(scope), expr.Operators, len(expr.Operators))
 //@   decreases height(expr)
 //@ loop 1
+//@   invariant !joinsFailL(mapdom(scope), expr.Operators, i)
 //@   invariant 0 <= i && i <= len(expr.Operators) && dstStart == len(old(dst)) && len(dst) >= dstStart
 //@   invariant allBelow(dst, len(dst), alloc()) && distinctL(dst, len(dst))
 //@   invariant forall(j, 0, dstStart, dst[j] == old(dst)[j]) && forall(j, dstStart, len(dst), dst[j] >= old(alloc()))
@@ -307,7 +309,7 @@ package pql
 
 //@ func pql.(*CompileOptions).Compile
 //@   function compileOf
-//@   use compile
+//@   use compile cfail
 //@   hide expr exprwf joincond view
 //@   ensures @either: (result0 != "" && result1 == nil) || (result0 == "" && result1 != nil)
 //@   ensures @ok.query: expr == FQ(stmts, len(stmts)) && NQ(stmts, len(stmts)) == 1 && tabWF(source, expr)
@@ -317,6 +319,8 @@ package pql
 //@   ensures @ok.paramvals: opts != nil ==> forallS(k, "Str", mapdom(opts.Parameters)[k] ==> atloop(2, mapval(scope))[k] == mapval(opts.Parameters)[k])
 //@   ensures @ok.plan: viewL(fieldheap("subquery", "name"), fieldheap("subquery", "sourceSQL"), fieldheap("subquery", "op"), fieldheap("subquery", "sort"), fieldheap("subquery", "take"), subqueries, len(subqueries)) == SplitT(mapdom(scope), mapval(scope), expr, Seq_Sub.empty)
 //@   ensures @ok.text: result0 == Out.str(StmtOut(mapdom(scope), mapval(scope), source, viewL(fieldheap("subquery", "name"), fieldheap("subquery", "sourceSQL"), fieldheap("subquery", "op"), fieldheap("subquery", "sort"), fieldheap("subquery", "take"), subqueries, len(subqueries))))
+//@   ensures @ok.nofail: !compFailS(stmts, atloop(2, mapdom(scope)), atloop(2, mapval(scope)))
+//@   ensures @err.fails: compFailS(stmts, atloop(2, mapdom(scope)), atloop(2, mapval(scope)))
 //@ loop 1
 //@   invariant scope != nil && scope >= old(alloc()) && scope < alloc() && opts != nil
 //@   invariant forallS(k, "Str", mapdom(scope)[k] == seen[k])
@@ -331,9 +335,11 @@ package pql
 //@   invariant expr != nil ==> tabWF(source, expr)
 //@   invariant forall(r, 0, old(alloc()), maparr("dom")[r] == old(maparr("dom"))[r]) && forall(r, 0, old(alloc()), maparr("val")[r] == old(maparr("val"))[r])
 //@   invariant forall(r, 0, old(alloc()), out(r) == old(out(r)))
+//@   invariant !stmtsFail(stmts, rangeindex + 1, atloop(2, mapdom(scope)), atloop(2, mapval(scope)))
 //@   decreases len(stmts) - rangeindex
 //@ loop 3
 //@   invariant -1 <= rangeindex && rangeindex < len(subqueries) - 1 && sb != nil && sb >= old(alloc())
 //@   invariant WCtes(mapdom(scope), mapval(scope), source, viewL(fieldheap("subquery", "name"), fieldheap("subquery", "sourceSQL"), fieldheap("subquery", "op"), fieldheap("subquery", "sort"), fieldheap("subquery", "take"), subqueries, len(subqueries)), rangeindex + 1, len(subqueries) - 1, out(sb)) == WCtes(mapdom(scope), mapval(scope), source, viewL(fieldheap("subquery", "name"), fieldheap("subquery", "sourceSQL"), fieldheap("subquery", "op"), fieldheap("subquery", "sort"), fieldheap("subquery", "take"), subqueries, len(subqueries)), 0, len(subqueries) - 1, olit(OEmpty, "WITH "))
 //@   invariant forall(r, 0, old(alloc()), out(r) == old(out(r)))
+//@   invariant !planFailL(mapdom(scope), viewL(fieldheap("subquery", "name"), fieldheap("subquery", "sourceSQL"), fieldheap("subquery", "op"), fieldheap("subquery", "sort"), fieldheap("subquery", "take"), subqueries, len(subqueries)), rangeindex + 1)
 //@   decreases len(subqueries) - rangeindex
